@@ -88,3 +88,6 @@ func (n *Node) VerifSuspendLimit() int { return n.conf.SuspendLimit }
 
 // SetRemovedRound sets the round at which the node's removal takes effect.
 func (v *VerifCore) SetRemovedRound(r int) { v.c.removedRound = r }
+
+// VerifJoin runs the join handshake once, as the Joining state does.
+func (n *Node) VerifJoin() error { return n.join() }
